@@ -580,6 +580,12 @@ class Ctx:
     def sqrt(self, x):
         return math.sqrt(x) if not is_sym(x) and self.mode == 'conc' else self._uf1('u_sqrt')(to_real(x))
 
+    def probit(self, x):
+        if not is_sym(x) and self.mode == 'conc':
+            from scipy.stats import norm
+            return float(norm.ppf(x))
+        return self._uf1('u_probit')(to_real(x))
+
     def pow10(self, x):
         return 10.0 ** x if not is_sym(x) and self.mode == 'conc' else self._uf1('u_pow10')(to_real(x))
 
